@@ -86,23 +86,30 @@ def undecided_zone(pps, excl, cfg):
     """Zones the statement leaves open (DESIGN.md 2.2): a segment pattern that can match the empty string (it may or
     may not be aligned with "no segment": the walker never does, the regex does), and a `**` directly next to a `***`
     under GLOBSTARLONG (the walker lets the last one decide about following links, the regex the first)."""
+    mixed = None
     for pp in list(pps) + list(excl or []):
         prev = None
         for s in pp.segs:
             if isinstance(s, str):
                 if cfg.get('globstarlong') and prev is not None and prev != s:
-                    return 'mixed globstar kinds'
+                    mixed = 'mixed globstar kinds'
                 prev = s
                 continue
             prev = None
             if R.seg_nullable(s):
                 return 'nullable segment'
-    return None
+    return mixed
 
 
 def compare(root, pps, excl, cfg, how, out, armed, spec):
     zone = undecided_zone(pps, excl, cfg)
-    if zone:
+    linkfree_only = False
+    if zone == 'mixed globstar kinds' and not excl:
+        # which of two adjacent globstars of different kinds decides about links is open - but only paths that pass
+        # through a symlink can tell the difference; every other candidate is judged as usual
+        linkfree_only = True
+        out.stats['mixed_kinds_judged_on_linkfree_paths'] += 1
+    elif zone:
         out.either += 1
         out.stats['either:' + zone] += 1
         return None
@@ -165,6 +172,14 @@ def compare(root, pps, excl, cfg, how, out, armed, spec):
             os.close(fd)
     out.evaluations += len(cands)
     diffs = [(p, True) for p in sorted(S - M)] + [(p, False) for p in sorted(M - S)]
+    if linkfree_only:
+        def linkfree(p):
+            comps = [c_ for c_ in W.strip_sep(p).split('/') if c_ != '']
+            return '..' not in comps and not any(C06.link_flags(root, comps))
+        nd = [d for d in diffs if linkfree(d[0])]
+        out.either += len(diffs) - len(nd)
+        diffs = nd
+        side = []
     for p, glob_only in diffs:
         ids = classify(pps, excl, cfg, p, glob_only, model, root)
         hit = sorted(ids & set(armed))
@@ -303,7 +318,26 @@ def run_literal(desc):
                     r = compare(root, [pp], None, dict(cfg), ['root_dir', 'cwd', 'dir_fd'][n % 3], out, armed, spec)
                     if r is not None and r[0] and len(segs) >= 2:
                         out.nontrivial((desc['tree'], A.render_path(pp), tuple(sorted(cfg))))
-    out.sample({'stream': 'literal', 'tree_index': desc['tree'], 'entries': len(entries), 'cases': n})
+        # ordered pairs of variants of one entry that lies below a symlinked directory: whichever pattern of a list accepts the
+        # path decides, in any order (`**/a` is refused at the link, `ld/a` accepts)
+        below = []
+        for p, _d, _l in model.all_entries(follow=True, max_depth=4):
+            comps = p.split('/')
+            if '..' not in comps and len(comps) >= 2 and any(C06.link_flags(root, comps)[:-1]):
+                below.append(p)
+        npairs = 0
+        for p in below[:12]:
+            vs = list(FC.literal_variants([p]))
+            pairs = [(a, b) for a in vs for b in vs if a != b]
+            step = max(1, len(pairs) // 60)
+            for a, b in pairs[::step]:
+                cfg = {'globstar': True}
+                npairs += 1
+                r = compare(root, [A.PathPat(False, a, False, 1), A.PathPat(False, b, False, 1)], None, cfg, ['root_dir', 'cwd', 'dir_fd'][npairs % 3],
+                            out, armed, spec)
+                if r is not None and r[0]:
+                    out.nontrivial((desc['tree'], 'pair', A.render_path(A.PathPat(False, a, False, 1)), A.render_path(A.PathPat(False, b, False, 1))))
+    out.sample({'stream': 'literal', 'tree_index': desc['tree'], 'entries': len(entries), 'cases': n, 'ordered_pairs_below_links': npairs})
     return out
 
 
